@@ -88,6 +88,16 @@ def strategy(tier):
     return _case(tier)
 
 
+def enumerate_cases(tier):
+    """Every accepted cell twice (generic and exact f - h = g c variants) on a time-dependent SDE."""
+    for rnd, spec, combo in solve.enumerate_cells(7005, all_levy=False):
+        for exact in (False, True):
+            yield {"spec": spec, "combo": combo, "exact": exact and not (spec["m"] > spec["d"]),
+                   "time": {"t0": 0.1, "t1": 0.1 + 6 * 0.125, "dt": 0.125, "tdtype": "float64"},
+                   "c": [round(rnd.uniform(-1.5, 1.5), 3) for _ in range(4)], "outs": [0.3, 0.7],
+                   "entropy": rnd.randrange(2 ** 31 - 2)}
+
+
 def run_case(case):
     import torchsde
     spec, combo, tm = case["spec"], case["combo"], case["time"]
